@@ -128,6 +128,34 @@ def parse_harness_file(flavour, rel, full):
     return out
 
 
+def file_requires(flavour):
+    """`// REQUIRES: <harness file>, ...` lines: harness files whose accessor functions a file uses."""
+    req = {}
+    for rel, full in twinmod.harness_files(flavour):
+        deps = []
+        for ln in open(full):
+            m = re.match(r"// REQUIRES:\s*(.*)", ln)
+            if m:
+                deps += [x.strip() for x in m.group(1).split(",") if x.strip()]
+        req[rel] = deps
+    return req
+
+
+def files_for(flavour, harnesses):
+    """Harness files needed to check `harnesses`: their own files plus transitive REQUIRES."""
+    req = file_requires(flavour)
+    need = {h["file"] for h in harnesses if h["flavour"] == flavour}
+    changed = True
+    while changed:
+        changed = False
+        for f in list(need):
+            for d in req.get(f, []):
+                if d not in need:
+                    need.add(d)
+                    changed = True
+    return need
+
+
 def registry():
     hs = []
     for fl in ("p", "s"):
@@ -516,7 +544,7 @@ def check(prop, tier, keep=False):
             twin_dir = os.path.join(tmp_root, f"twin-{flavour}")
             if flavour not in twin_stats:
                 try:
-                    twin_stats[flavour] = twinmod.generate(flavour, twin_dir)
+                    twin_stats[flavour] = twinmod.generate(flavour, twin_dir, files_for(flavour, hs))
                 except twinmod.TwinError as e:
                     print(f"INCONCLUSIVE: twin generation failed: {e}")
                     inconclusive.append(f"twin-{flavour}: {e}")
@@ -717,7 +745,7 @@ def replay(path):
     tmp_root = tempfile.mkdtemp(prefix=f"verif-replay-", dir=os.environ.get("TMPDIR", "/tmp"))
     try:
         twin_dir = os.path.join(tmp_root, f"twin-{flavour}")
-        twinmod.generate(flavour, twin_dir)
+        twinmod.generate(flavour, twin_dir, files_for(flavour, [h]))
         os.makedirs(os.path.join(VERIF, "logs"), exist_ok=True)
         failed, passed, panics, tail = playback_native(twin_dir, flavour, package, h, tests,
                                                        os.path.join(VERIF, "logs", f"replay-{hname}.log"))
